@@ -5,6 +5,7 @@ import Insim.Drv.C13
 import Insim.Drv.C14
 import Insim.Drv.C15
 import Insim.Drv.C16
+import Insim.Drv.C17
 import Insim.Drv.C18
 import Insim.Drv.C19
 import Insim.Drv.C20
@@ -18,7 +19,7 @@ open Insim.Drv
 
 def dispatch (line : String) : String :=
   let ws := words line
-  let hs : List (List String → Option String) := [C08.handle, C10.handle, C12.handle, C13.handle, C14.handle, C15.handle, C16.handle, C18.handle, C19.handle, C20.handle, Conn.handle, Pkt.handle, Pkt.handleLen, Pkt.handleStr]
+  let hs : List (List String → Option String) := [C08.handle, C10.handle, C12.handle, C13.handle, C14.handle, C15.handle, C16.handle, C17.handle, C18.handle, C19.handle, C20.handle, Conn.handle, Pkt.handle, Pkt.handleLen, Pkt.handleStr]
   match hs.findSome? (fun h => h ws) with
   | some r => r
   | none => "bad-op"
